@@ -66,9 +66,18 @@ func c12GenRulesDest(t *rapid.T, name string) fxDest {
 		Fields: append([]string(nil), rapid.SampledFrom(c12FieldLists).Draw(t, lbl+"/basefields")...),
 	}
 	n := rapid.IntRange(1, 4).Draw(t, lbl+"/nrules")
+	// rule names are optional and nothing requires them to be unique: some
+	// destinations give every rule the same name, some leave the rules unnamed
+	naming := rapid.SampledFrom([]string{"unique", "unique", "unique", "unique", "same", "same", "none"}).Draw(t, lbl+"/naming")
 	for i := 0; i < n; i++ {
 		rl := fmt.Sprintf("%s/r%d", lbl, i)
 		ru := fxRule{Name: fmt.Sprintf("r%d", i)}
+		switch naming {
+		case "same":
+			ru.Name = "rule"
+		case "none":
+			ru.Name = ""
+		}
 		if i < n-1 {
 			ru.Conds = []fxCond{{Field: "k", Operator: "=", Value: i}}
 		}
@@ -253,6 +262,7 @@ func genC12(t *rapid.T) c12Case {
 type c12Expect struct {
 	path string
 	def  fxDef
+	rule string // "name:<rule name>" for a rule-downstream definition, "" for a top-level one
 }
 
 func c12Expected(d fxDest) []c12Expect {
@@ -260,12 +270,12 @@ func c12Expected(d fxDest) []c12Expect {
 		if d.Top.Type == "deterministic" {
 			return nil
 		}
-		return []c12Expect{{"", *d.Top}}
+		return []c12Expect{{"", *d.Top, ""}}
 	}
 	var out []c12Expect
 	for i, ru := range d.Rules {
 		if ru.Def != nil {
-			out = append(out, c12Expect{fmt.Sprintf("rule[%d]", i), *ru.Def})
+			out = append(out, c12Expect{fmt.Sprintf("rule[%d]", i), *ru.Def, "name:" + ru.Name})
 		}
 	}
 	return out
@@ -278,6 +288,7 @@ type c12Obs struct {
 	path   string
 	def    fxDef
 	ptr    any
+	rule   string
 }
 
 func c12NameClass(a, b string) string {
@@ -379,7 +390,7 @@ func execC12(c c12Case) vkit.Result {
 						ok = false
 						continue
 					}
-					live = append(live, c12Obs{epoch: epoch, worker: w, dest: dest, path: r.Path, def: exp[i].def, ptr: r.Dyn})
+					live = append(live, c12Obs{epoch: epoch, worker: w, dest: dest, path: r.Path, def: exp[i].def, ptr: r.Dyn, rule: exp[i].rule})
 				}
 			}
 		}
@@ -429,7 +440,11 @@ func execC12(c c12Case) vkit.Result {
 					}
 					if same {
 						ptrViolation = true
-						violate("C12/same-destination/different-definitions-shared/"+c12DiffClass(a.def, b.def),
+						sig := "C12/same-destination/different-definitions-shared/" + c12DiffClass(a.def, b.def)
+						if a.rule != "" && a.rule == b.rule {
+							sig += "/rules-with-equal-names"
+						}
+						violate(sig,
 							"step %d: destination %q: %s (%s) and %s (%s) are different definitions but use the same %s instance",
 							step, a.dest, a.path, a.def.canon(), b.path, b.def.canon(), a.def.Type)
 					}
@@ -540,7 +555,7 @@ func execC12(c c12Case) vkit.Result {
 func TestC12(t *testing.T) {
 	vkit.Run(t, vkit.Spec[c12Case]{
 		ID:   "C12",
-		Rule: "rapid-generated rules files (1-3 versions; destinations prod/staging/__default__/a look-alike name; top-level and rule-downstream samplers of all five dynsampler-backed types drawn from a small pool that differs in 0-2 tuning parameters (ordinary values, and values the validator accepts but the samplers normalise: negative and explicit-zero durations, negative MaxKeys/BurstMultiple/InitialSampleRate, SampleRate 0/-3), the rate, the field set or the type), validated by refinery's rules validator and loaded through config.NewConfig from files; histories of lazy creation by 1-4 workers (the collector's per-worker cache logic) and real config reloads. After every step the identity of the dynsampler-go instance behind every cached sampler (verif hook) is compared pairwise. About 3 in 10 cases run the concurrent sub-mode instead: 2/4/8 workers released by one barrier create the samplers of 1-3 destinations at the same moment on a fresh factory, 30 (thorough 60) repetitions per case, most of them with a Metrics double that holds the first creator inside metrics registration until the others are done or stuck; the same pairwise identity oracle (plus a worker arriving later, plus the gauge) is applied after each repetition. Non-trivial: two workers hold a sampler for the same destination, or two definitions in one destination differ in exactly one parameter and both are instantiated. Distinct = distinct case JSON.",
+		Rule: "rapid-generated rules files (1-3 versions; destinations prod/staging/__default__/a look-alike name; top-level and rule-downstream samplers of all five dynsampler-backed types drawn from a small pool that differs in 0-2 tuning parameters (ordinary values, and values the validator accepts but the samplers normalise: negative and explicit-zero durations, negative MaxKeys/BurstMultiple/InitialSampleRate, SampleRate 0/-3), the rate, the field set or the type), rule names unique, all equal or absent; validated by refinery's rules validator and loaded through config.NewConfig from files; histories of lazy creation by 1-4 workers (the collector's per-worker cache logic) and real config reloads. After every step the identity of the dynsampler-go instance behind every cached sampler (verif hook) is compared pairwise. About 3 in 10 cases run the concurrent sub-mode instead: 2/4/8 workers released by one barrier create the samplers of 1-3 destinations at the same moment on a fresh factory, 30 (thorough 60) repetitions per case, most of them with a Metrics double that holds the first creator inside metrics registration until the others are done or stuck; the same pairwise identity oracle (plus a worker arriving later, plus the gauge) is applied after each repetition. Non-trivial: two workers hold a sampler for the same destination, or two definitions in one destination differ in exactly one parameter and both are instantiated. Distinct = distinct case JSON.",
 		Assumptions: []string{
 			"identity of the dynsampler-go instance == identity of the rate-tracking state (the Sampler wrappers only hold configuration and the key builder)",
 			"the per-worker cache in the harness mirrors collect.CollectorWorker.datasetSamplers; reload = ClearDynsamplers then every worker clears its cache (collect.reloadConfigs), executed atomically",
